@@ -1,12 +1,276 @@
 /-
-PLACEHOLDER written by builder InsB so that `./check C06` can run while the coordinator
-writes the real property theorems; it states nothing about the property itself.
+C06 — InspectWrapper is a transparent pipe that isolates inspector faults.
+
+The wrapper model is generic in the inspectors (`IOps σ`): every theorem below holds for
+*arbitrary* inspector behaviour — any fault placement, any completeness/match answers — for
+every chunk list, expected format and inspector list.  The only assumption is that an
+inspector does not change its name (`NameStable`), which is how the model identifies members
+of `_errored_inspectors`.
 -/
 import OsloModel.Wrapper
-namespace Oslo.Insp.C06
+import OsloProofs.Lemmas.Fmt
+namespace Oslo.Insp
 
-/-- placeholder, not a property theorem -/
-theorem placeholder_processLoop_nil {σ} (ops : IOps σ) (e : Option String) (c : Bytes) (acc : List σ)
-    (errd : List String) : processLoop ops e c [] acc errd = (acc.reverse, errd, .done) := rfl
+variable {σ : Type}
 
-end Oslo.Insp.C06
+def NameStable (ops : IOps σ) : Prop := ∀ i c, ops.name (ops.eat i c).1 = ops.name i
+
+/-- `b` is what became of inspector `a`: an inspector already marked errored is not touched -/
+def Untouched (ops : IOps σ) (errd : List String) (a b : σ) : Prop :=
+  ops.name b = ops.name a ∧ (ops.name a ∈ errd → b = a)
+
+/-- position-by-position relation between two lists -/
+inductive Pointwise (R : σ → σ → Prop) : List σ → List σ → Prop
+  | nil : Pointwise R [] []
+  | cons {a b : σ} {l₁ l₂ : List σ} : R a b → Pointwise R l₁ l₂ → Pointwise R (a :: l₁) (b :: l₂)
+
+theorem lemma_pointwise_imp {R S : σ → σ → Prop} (h : ∀ a b, R a b → S a b) {l₁ l₂ : List σ}
+    (hp : Pointwise R l₁ l₂) : Pointwise S l₁ l₂ := by
+  induction hp with
+  | nil => exact .nil
+  | cons hr _ ih => exact .cons (h _ _ hr) ih
+
+theorem lemma_forall2_refl (ops : IOps σ) (errd : List String) (l : List σ) :
+    Pointwise (Untouched ops errd) l l := by
+  induction l with
+  | nil => exact .nil
+  | cons a l ih => exact .cons ⟨rfl, fun _ => rfl⟩ ih
+
+/-- the loop of `_process_chunk`: what it does to the inspector list, the errored set and how it ends -/
+theorem lemma_processLoop (ops : IOps σ) (hn : NameStable ops) (expected : Option String) (chunk : Bytes) :
+    ∀ (todo acc : List σ) (errd : List String),
+      let r := processLoop ops expected chunk todo acc errd
+      (∃ done', r.1 = acc.reverse ++ done' ∧ Pointwise (Untouched ops errd) todo done') ∧
+      (∀ n ∈ errd, n ∈ r.2.1) ∧
+      (expected = none → r.2.2 = .done) ∧
+      (∀ e, r.2.2 = .raised e → ∃ i ∈ todo, some (ops.name i) = expected ∧
+          ((ops.eat i chunk).2 = some e ∨
+           ((ops.eat i chunk).2 = none ∧ ops.fmatch (ops.eat i chunk).1 = .error e))) ∧
+      (r.2.2 = .mismatch → ∃ i ∈ todo, some (ops.name i) = expected ∧ (ops.eat i chunk).2 = none ∧
+          ops.complete (ops.eat i chunk).1 = true ∧ ops.fmatch (ops.eat i chunk).1 = .ok false) := by
+  intro todo
+  induction todo with
+  | nil =>
+    intro acc errd
+    simp only [processLoop]
+    exact ⟨⟨[], by simp, .nil⟩, fun n h => h, fun _ => trivial, fun e h => by simp at h, fun h => by simp at h⟩
+  | cons i rest ih =>
+    intro acc errd
+    simp only [processLoop]
+    split
+    · -- already errored: skipped
+      rename_i herr
+      obtain ⟨⟨d, hd, hf⟩, hm, hno, hr, hmm⟩ := ih (i :: acc) errd
+      refine ⟨⟨i :: d, by simp [hd], .cons ⟨rfl, fun _ => rfl⟩ hf⟩, hm, hno, ?_, ?_⟩
+      · intro e he
+        obtain ⟨j, hj, rest'⟩ := hr e he
+        exact ⟨j, List.mem_cons_of_mem _ hj, rest'⟩
+      · intro he
+        obtain ⟨j, hj, rest'⟩ := hmm he
+        exact ⟨j, List.mem_cons_of_mem _ hj, rest'⟩
+    · rename_i herr
+      have hnotin : ops.name i ∉ errd := by simpa using herr
+      split
+      · -- eat raised
+        rename_i i' e heat
+        have hname : ops.name i' = ops.name i := by
+          have := hn i chunk; rw [heat] at this; exact this
+        split
+        · rename_i hexp
+          refine ⟨⟨i' :: rest, by simp, .cons ⟨hname, fun h => absurd h hnotin⟩ (lemma_forall2_refl ops errd rest)⟩,
+            fun n h => h, fun h => by rw [h] at hexp; simp at hexp, ?_, fun h => by simp at h⟩
+          intro e' he'
+          simp only [POut.raised.injEq] at he'
+          subst he'
+          exact ⟨i, by simp, hexp, Or.inl (by rw [heat])⟩
+        · rename_i hexp
+          obtain ⟨⟨d, hd, hf⟩, hm, hno, hr, hmm⟩ := ih (i' :: acc) (errd ++ [ops.name i])
+          have hf' : Pointwise (Untouched ops errd) rest d := by
+            apply lemma_pointwise_imp _ hf
+            intro a b ⟨h1, h2⟩
+            exact ⟨h1, fun h => h2 (by simp [h])⟩
+          refine ⟨⟨i' :: d, by simp [hd], .cons ⟨hname, fun h => absurd h hnotin⟩ hf'⟩,
+            fun n h => hm n (by simp [h]), hno, ?_, ?_⟩
+          · intro e' he'
+            obtain ⟨j, hj, rest'⟩ := hr e' he'
+            exact ⟨j, List.mem_cons_of_mem _ hj, rest'⟩
+          · intro he'
+            obtain ⟨j, hj, rest'⟩ := hmm he'
+            exact ⟨j, List.mem_cons_of_mem _ hj, rest'⟩
+      · -- eat returned
+        rename_i i' heat
+        have hname : ops.name i' = ops.name i := by
+          have := hn i chunk; rw [heat] at this; exact this
+        have hcont :
+            (∃ done', (processLoop ops expected chunk rest (i' :: acc) errd).1 = acc.reverse ++ done' ∧
+               Pointwise (Untouched ops errd) (i :: rest) done') ∧
+            (∀ n ∈ errd, n ∈ (processLoop ops expected chunk rest (i' :: acc) errd).2.1) ∧
+            (expected = none → (processLoop ops expected chunk rest (i' :: acc) errd).2.2 = .done) ∧
+            (∀ e, (processLoop ops expected chunk rest (i' :: acc) errd).2.2 = .raised e →
+              ∃ j ∈ i :: rest, some (ops.name j) = expected ∧
+              ((ops.eat j chunk).2 = some e ∨
+               ((ops.eat j chunk).2 = none ∧ ops.fmatch (ops.eat j chunk).1 = .error e))) ∧
+            ((processLoop ops expected chunk rest (i' :: acc) errd).2.2 = .mismatch →
+              ∃ j ∈ i :: rest, some (ops.name j) = expected ∧ (ops.eat j chunk).2 = none ∧
+              ops.complete (ops.eat j chunk).1 = true ∧ ops.fmatch (ops.eat j chunk).1 = .ok false) := by
+          obtain ⟨⟨d, hd, hf⟩, hm, hno, hr, hmm⟩ := ih (i' :: acc) errd
+          refine ⟨⟨i' :: d, by simp [hd], .cons ⟨hname, fun h => absurd h hnotin⟩ hf⟩, hm, hno, ?_, ?_⟩
+          · intro e' he'
+            obtain ⟨j, hj, rest'⟩ := hr e' he'
+            exact ⟨j, List.mem_cons_of_mem _ hj, rest'⟩
+          · intro he'
+            obtain ⟨j, hj, rest'⟩ := hmm he'
+            exact ⟨j, List.mem_cons_of_mem _ hj, rest'⟩
+        split
+        · rename_i hexp
+          simp only [Bool.and_eq_true, decide_eq_true_eq] at hexp
+          obtain ⟨hexp, hcomp⟩ := hexp
+          have hexp' : some (ops.name i) = expected := by simpa using hexp
+          split
+          · rename_i e hfm
+            refine ⟨⟨i' :: rest, by simp, .cons ⟨hname, fun h => absurd h hnotin⟩ (lemma_forall2_refl ops errd rest)⟩,
+              fun n h => h, fun h => by rw [h] at hexp'; simp at hexp', ?_, fun h => by simp at h⟩
+            intro e' he'
+            simp only [POut.raised.injEq] at he'
+            subst he'
+            exact ⟨i, by simp, hexp', Or.inr ⟨by rw [heat], by rw [heat]; exact hfm⟩⟩
+          · rename_i hfm
+            refine ⟨⟨i' :: rest, by simp, .cons ⟨hname, fun h => absurd h hnotin⟩ (lemma_forall2_refl ops errd rest)⟩,
+              fun n h => h, fun h => by rw [h] at hexp'; simp at hexp', fun e h => by simp at h, ?_⟩
+            intro _
+            exact ⟨i, by simp, hexp', by rw [heat], by rw [heat]; exact hcomp, by rw [heat]; exact hfm⟩
+          · exact hcont
+        · exact hcont
+
+/-! ### the property theorems -/
+
+/-- **nonexpected_fault_contained** — without an expected format nothing an inspector does ever
+    reaches the reader: `_process_chunk` always returns normally -/
+theorem nonexpected_fault_contained (ops : IOps σ) (hn : NameStable ops) (w : Wrap σ) (chunk : Bytes)
+    (h : w.expected = none) : (w.processChunk ops chunk).2 = .done := by
+  have := (lemma_processLoop ops hn w.expected chunk w.insps [] w.errored).2.2.1 h
+  simpa [Wrap.processChunk] using this
+
+/-- … and with an expected format, an exception reaches the reader only as that format's own
+    inspector's error (raised by its `eat_chunk`, or by its `format_match` once complete) -/
+theorem raised_only_by_expected (ops : IOps σ) (hn : NameStable ops) (w : Wrap σ) (chunk : Bytes) (e : Err)
+    (h : (w.processChunk ops chunk).2 = .raised e) :
+    ∃ i ∈ w.insps, some (ops.name i) = w.expected ∧
+      ((ops.eat i chunk).2 = some e ∨
+       ((ops.eat i chunk).2 = none ∧ ops.fmatch (ops.eat i chunk).1 = .error e)) := by
+  have := (lemma_processLoop ops hn w.expected chunk w.insps [] w.errored).2.2.2.1 e
+  simp only [Wrap.processChunk] at h
+  exact this h
+
+/-- the ImageFormatError "content does not match expected format" is raised exactly for the expected
+    inspector being complete without matching -/
+theorem mismatch_only_by_expected (ops : IOps σ) (hn : NameStable ops) (w : Wrap σ) (chunk : Bytes)
+    (h : (w.processChunk ops chunk).2 = .mismatch) :
+    ∃ i ∈ w.insps, some (ops.name i) = w.expected ∧ (ops.eat i chunk).2 = none ∧
+      ops.complete (ops.eat i chunk).1 = true ∧ ops.fmatch (ops.eat i chunk).1 = .ok false := by
+  have := (lemma_processLoop ops hn w.expected chunk w.insps [] w.errored).2.2.2.2
+  simp only [Wrap.processChunk] at h
+  exact this h
+
+/-- **errored_never_fed** — an inspector that has failed is never fed again: one `_process_chunk`
+    leaves every inspector already in the errored set exactly as it was (position by position),
+    no inspector changes its name, and the errored set only grows -/
+theorem errored_never_fed (ops : IOps σ) (hn : NameStable ops) (w : Wrap σ) (chunk : Bytes) :
+    Pointwise (Untouched ops w.errored) w.insps (w.processChunk ops chunk).1.insps ∧
+    (∀ n ∈ w.errored, n ∈ (w.processChunk ops chunk).1.errored) := by
+  obtain ⟨⟨d, hd, hf⟩, hm, _⟩ := lemma_processLoop ops hn w.expected chunk w.insps [] w.errored
+  simp only [List.reverse_nil, List.nil_append] at hd
+  refine ⟨?_, ?_⟩
+  · simp only [Wrap.processChunk]; rw [hd]; exact hf
+  · simpa [Wrap.processChunk] using hm
+
+theorem lemma_pipe_prefix (ops : IOps σ) : ∀ (src : List Bytes) (w : Wrap σ) (out : List Bytes),
+    ∃ k, (Wrap.pipe ops w src out).1 = out.reverse ++ src.take k ∧
+         ((Wrap.pipe ops w src out).2.2 = .done → k = src.length) := by
+  intro src
+  induction src with
+  | nil => intro w out; exact ⟨0, by simp [Wrap.pipe], fun _ => rfl⟩
+  | cons c cs ih =>
+    intro w out
+    simp only [Wrap.pipe]
+    cases hpc : w.processChunk ops c with
+    | mk w' o =>
+      cases o with
+      | done =>
+        obtain ⟨k, hk, hd⟩ := ih w' (c :: out)
+        exact ⟨k + 1, by simp [hk], fun h => by simp [hd h]⟩
+      | raised e => exact ⟨0, by simp, fun h => by simp at h⟩
+      | mismatch => exact ⟨0, by simp, fun h => by simp at h⟩
+
+/-- **pipe_transparent** — the chunks handed to the reader are exactly the source's chunks, in
+    order, up to the abort point; when nothing aborted they are all of them -/
+theorem pipe_transparent (ops : IOps σ) (w : Wrap σ) (src : List Bytes) :
+    ∃ k, (Wrap.pipe ops w src []).1 = src.take k ∧
+         ((Wrap.pipe ops w src []).2.2 = .done → k = src.length) := by
+  simpa using lemma_pipe_prefix ops src w []
+
+/-- **abort_at_first** — when the stream is cut off at some chunk (the reader got exactly the chunks
+    before it), what was read and how it ended do not depend on anything after that chunk: no
+    further source data is consumed -/
+theorem abort_at_first (ops : IOps σ) (w : Wrap σ) (pre : List Bytes) (c : Bytes) (rest rest' : List Bytes)
+    (hlen : (Wrap.pipe ops w (pre ++ c :: rest) []).1.length = pre.length) :
+    Wrap.pipe ops w (pre ++ c :: rest') [] = Wrap.pipe ops w (pre ++ c :: rest) [] := by
+  have : ∀ (pre : List Bytes) (w : Wrap σ) (out : List Bytes),
+      (Wrap.pipe ops w (pre ++ c :: rest) out).1.length = out.length + pre.length →
+      Wrap.pipe ops w (pre ++ c :: rest') out = Wrap.pipe ops w (pre ++ c :: rest) out := by
+    intro pre
+    induction pre with
+    | nil =>
+      intro w out hlen
+      simp only [List.nil_append, Wrap.pipe] at hlen ⊢
+      cases hpc : w.processChunk ops c with
+      | mk w' o =>
+        cases o with
+        | done =>
+          simp only [hpc] at hlen
+          obtain ⟨k, hk, _⟩ := lemma_pipe_prefix ops rest w' (c :: out)
+          rw [hk] at hlen
+          simp at hlen
+        | raised e => rfl
+        | mismatch => rfl
+    | cons p ps ih =>
+      intro w out hlen
+      simp only [List.cons_append, Wrap.pipe] at hlen ⊢
+      cases hpc : w.processChunk ops p with
+      | mk w' o =>
+        cases o with
+        | done =>
+          simp only [hpc] at hlen
+          exact ih w' (p :: out) (by simp at hlen ⊢; omega)
+        | raised e => rfl
+        | mismatch => rfl
+  exact this pre w [] (by simpa using hlen)
+
+/-- the stream is cut off at the *first* chunk on which `_process_chunk` does not return normally -/
+theorem abort_is_first_failing_chunk (ops : IOps σ) (w : Wrap σ) (src : List Bytes) (k : Nat)
+    (hk : (Wrap.pipe ops w src []).1 = src.take k) (hlt : k < src.length) :
+    (Wrap.pipe ops w src []).2.2 ≠ .done := by
+  intro hd
+  obtain ⟨k', hk', hd'⟩ := lemma_pipe_prefix ops src w []
+  have := hd' hd
+  simp only [List.reverse_nil, List.nil_append] at hk'
+  rw [hk'] at hk
+  have h1 := congrArg List.length hk
+  simp at h1
+  omega
+
+/-- the real inspectors never change their name, so the theorems apply to them -/
+theorem realOps_nameStable : NameStable realOps := by
+  intro i c
+  show (eatChunk i c).1.fmt.name = i.fmt.name
+  rw [lemma_eatChunk_fmt]
+
+/-! non-vacuity: a three-chunk stream through a wrapper expecting qcow2 is cut at the chunk that
+    completes the (non-matching) qcow2 header; the reader has received exactly the chunks before it -/
+example :
+    let w := Wrap.mk' (some "qcow2") ["qcow2", "raw"]
+    let src : List Bytes := [List.replicate 300 0, List.replicate 300 0, List.replicate 300 0]
+    (Wrap.pipe realOps w src []).1.length = 1 ∧ (Wrap.pipe realOps w src []).2.2 = .mismatch := by
+  decide +kernel
+
+end Oslo.Insp
